@@ -239,3 +239,24 @@ Definition so_act_noacq (raises : nat -> bool) (tid : nat) (s : so_state) (l : s
       end
   | _ => so_act raises tid s l
   end.
+
+(* run() whose emptiness test and release of is_acquired are two locked blocks:
+     with self.lock:  if queue: work = pop(0)  else: empty = True
+     if empty:  with self.lock: is_acquired = False;  return            [inr tt] *)
+Definition so_start_split (o : so_op) : so_loc + unit := inl (so_start o).
+Definition so_act_split (raises : nat -> bool) (tid : nat) (s : so_state) (l : so_loc + unit)
+  : option (so_state * option (so_loc + unit) * list so_obs) :=
+  let '(SO q acq flt pend recv) := s in
+  match l with
+  | inr _ => Some (SO q false flt pend recv, Some (inl LW_pop), [])
+  | inl LR_lock =>
+      match q with
+      | i :: r => Some (SO r acq flt pend recv, Some (inl (LR_enter i)), [])
+      | [] => Some (s, Some (inr tt), [])
+      end
+  | inl l0 =>
+      match so_act raises tid s l0 with
+      | Some (s', l', out) => Some (s', match l' with Some x => Some (inl x) | None => None end, out)
+      | None => None
+      end
+  end.
